@@ -206,6 +206,9 @@ def shard_estimate(ctx: Ctx) -> None:
             fl = g.build(shapes)
             est_o = outcome(fl.created.weight_estimate, g.sizer(fl))
             vs_o = outcome(fl.created.vsize_estimate, g.sizer(fl))
+            # the sizer-less spellings (properties): answered only where the psbt itself determines every input
+            pw_o = outcome(lambda: fl.created.estimated_weight)
+            pv_o = outcome(lambda: fl.created.estimated_vsize)
             g.sign(fl, ("software", "psbt.sign", "nogrind")[it % 3])
             g.finish(fl)
         except Exception as e:  # noqa: BLE001
@@ -230,6 +233,18 @@ def shard_estimate(ctx: Ctx) -> None:
             ctx.violation(f"estimate-below-signed-weight:{_worst(shapes)}", f"estimated weight {est} < weight {actual} of the transaction once signed ({shapes})", case)
         if vs_o[0] == "ok" and vs_o[1] != -(-est // 4):
             ctx.violation("vsize-estimate-not-ceil-weight-estimate-over-4", f"vsize_estimate={vs_o[1]} weight_estimate={est}", case)
+        for name, o in (("estimated_weight", pw_o), ("estimated_vsize", pv_o)):
+            if o[0] == "raise" and not is_lib_exc(o[1]):
+                ctx.violation(f"estimate:foreign-exception:{type(o[1]).__name__}", f"Psbt.{name} raised {o[1]!r}", case)
+        if pw_o[0] == "ok":
+            ctx.mon("estimate>=actual:Psbt.estimated_weight")
+            if pw_o[1] < actual:
+                ctx.violation(f"estimate-below-signed-weight:estimated_weight:{_worst(shapes)}",
+                              f"Psbt.estimated_weight {pw_o[1]} < weight {actual} of the transaction once signed ({shapes})", {**case, "estimate": pw_o[1]})
+            if pv_o[0] == "ok" and pv_o[1] != -(-pw_o[1] // 4):
+                ctx.violation("vsize-estimate-not-ceil-weight-estimate-over-4", f"estimated_vsize={pv_o[1]} estimated_weight={pw_o[1]}", case)
+        else:
+            ctx.stat("estimate:Psbt.estimated_weight-refused")
         ctx.stats["estimate:slack-total"] += est - actual
         for shp in set(shapes):
             ctx.stats[f"estimated:{shp}"] += 1
